@@ -16,7 +16,7 @@ LEVEL = "fault_enumeration"
 MANIFEST = dict(
     engine="tlc-fdtable", path="spec/FdTable",
     technique="TLA+ descriptor-table model (FdTableImpl) enumerated exhaustively by TLC as generator of fault scripts; scripts executed on the real code with external failure injection and /proc/self/fd census; recorded traces judged by TLC against the FdMon monitor",
-    text="Every constructor (NewIO, NewTimer, Dial tcp/udp, Listen, accept, NewPacketConn, NewUDPPeer, Open, NewMirroredBuffer, NewAsyncAdapter, websocket Handshake/AsyncHandshake) is run once per injectable failure point (bad address, failing option, bind conflict / unavailable address, refused, unreachable, would-block, server that closes / truncates at byte k / answers wrongly) and once per allocation index k with RLIMIT_NOFILE lowered so that the k-th allocation fails (plus the control k = number of allocations); repeated Close / Cancel+Close / net.Conn.Close is interleaved with the creation of other objects and harness descriptors for all histories of the TLC state graph (2 objects quick, 3 thorough); in-flight reads/writes are parked on real sockets, references dropped, the collector run three times and a sentinel captured only by the pending callback tells whether the owner was collected, then the completion is provoked. The census before/after each step (with fcntl probes of foreign descriptors) is validated by TLC against the monitor; verdicts come only from recorded real-code traces.",
+    text="Every constructor (NewIO, NewTimer, Dial tcp/udp, Listen, accept, NewPacketConn, NewUDPPeer, Open, NewMirroredBuffer, NewAsyncAdapter, websocket Handshake/AsyncHandshake) is run once per injectable failure point (bad address, failing option, bind conflict / unavailable address, refused, unreachable, would-block, server that closes / truncates at byte k / answers wrongly) and once per allocation index k with RLIMIT_NOFILE lowered so that the k-th allocation fails (plus the control k = number of allocations); repeated Close / Cancel+Close / net.Conn.Close is interleaved with the creation of other objects and harness descriptors for all histories of the TLC state graph (2 objects quick, 3 thorough); in-flight reads/writes are parked on real sockets, references dropped, the collector run three times and a sentinel captured only by the pending callback tells whether the owner was collected, then the completion is provoked. The collection, repeated-Close and constructor scenarios are executed a second time by a driver process that has first occupied every descriptor number below 4096 with placeholders, so that every object is kept in the map half of the IO registry (numbers >= 4096) instead of the array half, and once across the boundary; a ghost in the model state (by which code path the registry entry survived) makes the cover continue behind every such path. The census before/after each step (with fcntl probes of foreign descriptors) is validated by TLC against the monitor; verdicts come only from recorded real-code traces.",
     note="Failure points that cannot be provoked from outside (setnonblock, getsockname, epoll_ctl, setsockopt on a fresh socket) are explored in the model only and reported as model_findings. Trusted: TLC, the Go driver (census, injection, finalizer sentinel + canary), the kernel's lowest-free allocation. Exhaustion is injected in-process by RLIMIT_NOFILE after plugging holes.",
     design_ref="5/C13")
 
@@ -31,6 +31,8 @@ BUGS = dict(
     BUG_SocketNonblockLeak="TRUE", BUG_AcceptLeak="TRUE")
 
 BEFORE_REPAIR = {k: "TRUE" for k in BUGS}
+
+EDGE = "high=4090"    # driver mode: placeholders below 4090 (a scenario's own IO and listener take 4090..4094)
 
 
 def kinds(ks):
@@ -55,6 +57,22 @@ def configs(tier, seed=1):
     cs.append(("gc2", dict(MaxObj=2, MaxOps=6, MaxClose=2, MaxPlug=0,
                            Kinds=kinds(["tcp", "adp"] if q else ["tcp", "acc", "lst", "pkt", "adp", "timer"]),
                            WithFail="FALSE", WithUninj="FALSE", WithGc="TRUE", WithRehs="FALSE", TruncK="{1}"), 4))
+    # The registry of owners of in-flight operations (IO.pending) is an array for descriptor numbers below 4096 and a map
+    # from there on: the same scenario classes again in a driver process that has occupied every number below 4096
+    # (-mode high), so that every object goes through the map. Dial (tcp) waits with select(2) and cannot be used with
+    # such numbers: the accepted connection (same file type) stands in for it.
+    hi = lambda ks: kinds([("acc" if k == "tcp" else k) for k in ks if not (k == "acc" and "tcp" in ks)])
+    cs.append(("gc@hi", dict(MaxObj=1, MaxOps=6 if q else 8, MaxClose=1, MaxPlug=0, Kinds=hi(ALL_KINDS), WithFail="FALSE",
+                             WithUninj="FALSE", WithGc="TRUE", WithRehs="FALSE", TruncK="{1}"), 2))
+    cs.append(("gc2@hi", dict(MaxObj=2, MaxOps=6, MaxClose=2, MaxPlug=0,
+                              Kinds=kinds(["acc", "adp"] if q else ["acc", "lst", "pkt", "adp", "timer"]),
+                              WithFail="FALSE", WithUninj="FALSE", WithGc="TRUE", WithRehs="FALSE", TruncK="{1}"), 4))
+    cs.append(("close@hi", dict(MaxObj=2, MaxOps=5 if q else 6, MaxClose=2, MaxPlug=1,
+                                Kinds=hi([k for k in ALL_KINDS if k not in ("udp", "acc", "file")] if q else ALL_KINDS), WithFail="FALSE",
+                                WithUninj="FALSE", WithGc="FALSE", WithRehs="FALSE", TruncK="{1}"), 4))
+    cs.append(("ctor@hi", dict(MaxObj=1, MaxOps=3, MaxClose=2, MaxPlug=0, Kinds=hi(ALL_KINDS), WithFail="TRUE",
+                               WithUninj="FALSE", WithGc="FALSE", WithRehs="TRUE",
+                               TruncK="{" + ", ".join(map(str, cuts if q else (1, 60, 128))) + "}"), 2))
     if not q:
         cs.append(("close3", dict(MaxObj=3, MaxOps=6, MaxClose=2, MaxPlug=1,
                                   Kinds=kinds(["timer", "tcp", "lst", "adp", "ws"]), WithFail="FALSE",
@@ -79,8 +97,20 @@ def _validate(ck, sw, name, beh, label, mode=""):
 MODELBAD_RE = re.compile(r'^<<"MODELBAD", "([^"]*)", (".*")>>\s*$')
 
 
-def _judge(ck, sw, name, beh, label, drift=True):
-    summ, bads, trace = _validate(ck, sw, name, beh, label)
+def _judge(ck, sw, name, beh, label, drift=True, mode=""):
+    summ, bads, trace = _validate(ck, sw, name, beh, label, mode=mode)
+    rp = ck.cov.setdefault("objects_by_registry_path", {"static_array_fd_below_4096": 0, "dynamic_map_fd_4096_and_up": 0})
+    rp["static_array_fd_below_4096"] += summ["notes"].get("objects_in_static_registry_range", 0)
+    rp["dynamic_map_fd_4096_and_up"] += summ["notes"].get("objects_in_dynamic_registry_range", 0)
+    if mode == EDGE:
+        ck.cov["scenarios_with_descriptors_on_both_sides_of_4096"] = ck.cov.get("scenarios_with_descriptors_on_both_sides_of_4096", 0) + summ["scenarios"]
+        if not (summ["notes"].get("objects_in_static_registry_range", 0) and summ["notes"].get("objects_in_dynamic_registry_range", 0)):
+            raise vlib.Inconclusive("%s: the boundary mode did not put objects on both sides of 4096: %s" % (name, summ["notes"]))
+    if mode == "high":
+        ck.cov["scenarios_with_every_descriptor_from_4096"] = ck.cov.get("scenarios_with_every_descriptor_from_4096", 0) + summ["scenarios"]
+        if summ["notes"].get("objects_in_static_registry_range", 0) or summ["notes"].get("census_from") != 4096 or \
+                (summ["scenarios"] > 20 and not summ["notes"].get("objects_in_dynamic_registry_range", 0)):
+            raise vlib.Inconclusive("%s: the high-descriptor mode did not put every object at 4096 or above: %s" % (name, summ["notes"]))
     ck.cov["evaluations"] += summ["scenarios"]
     ck._keys.update(summ["notes"]["keys"])
     ck.cov["traces_validated_against_impl"] += summ["scenarios"] - len({b[0] for b in bads})
@@ -89,12 +119,12 @@ def _judge(ck, sw, name, beh, label, drift=True):
                                      "first": summ.get("first_drift")})
     for sid, i, key in bads:
         script = json.loads(vlib.nth_line(beh, sid))
-        if key.startswith("C13/completion-lost/") and not _recurs(ck, sw, script, key):
+        if key.startswith("C13/completion-lost/") and not _recurs(ck, sw, script, key, mode):
             ck.inconclusive.append("completion not seen within the budget once, but not on re-execution: %s %s" % (key, json.dumps(script)))
             continue
         ck.report_bad(key, "descriptor trace rejected at step %d of scenario %d (%s)" % (i, sid, label),
                       lambda sid=sid, i=i, key=key, script=script: {
-                          "property": ck.pid, "component": "fd", "rule": key, "step": i,
+                          "property": ck.pid, "component": "fd", "rule": key, "step": i, "mode": mode,
                           "behaviour": script, "trace": vlib.read_scenario(trace, sid)})
     if len(ck.cov["samples"]) < 6 and summ["scenarios"]:
         sid = max(1, (summ["scenarios"] * 2) // 3)
@@ -103,14 +133,14 @@ def _judge(ck, sw, name, beh, label, drift=True):
     return bads
 
 
-def _recurs(ck, sw, script, key):
+def _recurs(ck, sw, script, key, mode=""):
     """A 'did not happen within the budget' observation counts only if it
     recurs three times with a four-fold budget."""
     beh = os.path.join(ck.work, "again_%d.jsonl" % len(ck.cov["impl_drift"]))
     with open(beh, "w") as f:
         for _ in range(3):
             f.write(json.dumps(script) + "\n")
-    summ, bads, _ = _validate(ck, sw, "again", beh, "re-execution", mode="patient")
+    summ, bads, _ = _validate(ck, sw, "again", beh, "re-execution", mode="patient" + ("," + mode if mode else ""))
     return len({b[0] for b in bads if b[2] == key}) == 3
 
 
@@ -132,18 +162,24 @@ def run(ck):
         name, consts, workers = cfg
         consts = dict(consts)
         consts.update(BUGS)
-        c = vlib.cfg_with(sw, "FdTableImpl_mc.cfg", consts, outname="gen_%s.cfg" % name)
+        c = vlib.cfg_with(sw, "FdTableImpl_mc.cfg", consts, outname="gen_%s.cfg" % name.replace("@", "_"))
         r = vlib.tlc(sw, "FdTableImpl", c, workers=workers, timeout=1500)
         if not r.ok:
             raise vlib.Inconclusive("FdTableImpl %s: %s\n%s" % (name, r.violated or r.error, r.tail()))
         ck.add_tlc("FdTableImpl " + name, r, consts)
         for line in r.lines('<<"MODELBAD"'):
             model_findings.add(line.split('"')[3])
-        beh = os.path.join(ck.work, "beh_%s.jsonl" % name)
+        beh = os.path.join(ck.work, "beh_%s.jsonl" % name.replace("@", "_"))
         n = vlib.edges_to_file(r, beh)
         if n == 0:
             raise vlib.Inconclusive("no scripts generated by " + name)
-        _judge(ck, sw, name, beh, "%s: %d scripts" % (name, n))
+        _judge(ck, sw, name.replace("@", "_"), beh, "%s: %d scripts%s" % (name, n, ", every descriptor of the scenario numbered 4096 or higher" if name.endswith("@hi") else ""),
+               mode="high" if name.endswith("@hi") else "")
+        if name == "gc2@hi":
+            # and once across the boundary: placeholders up to 4089 only, so that the first object of a scenario is kept in
+            # the array and the second one in the map (or one object's two descriptors straddle 4096)
+            _judge(ck, sw, "gc2_edge", beh, "gc2@edge: %d scripts, descriptors of the scenario numbered from 4090 (objects on both sides of 4096)" % n,
+                   mode=EDGE)
 
     def model_only():
         # failure points nobody can inject from outside: what the model says about them
@@ -201,10 +237,21 @@ def run(ck):
             if seen:
                 _judge(ck, sw, "regress_%d" % idx, beh, "regression scripts (histories the pre-repair model rejects), %s: %d scripts" % (nm.split(":")[0], len(seen)),
                        drift=False)
+                # the same with every descriptor at 4096 or above (scripts that dial are left out: select(2))
+                behh = os.path.join(ck.work, "beh_regress_%d_hi.jsonl" % idx)
+                nh = 0
+                with open(behh, "w") as f:
+                    for script in sorted(seen):
+                        if not any(c.get("kind") == "tcp" for c in json.loads(script)):
+                            f.write(script + "\n")
+                            nh += 1
+                if nh:
+                    _judge(ck, sw, "regress_%d_hi" % idx, behh, "regression scripts, %s, every descriptor numbered 4096 or higher: %d scripts" % (nm.split(":")[0], nh),
+                           drift=False, mode="high")
         ck.cov["model_rules_reached_before_repair"] = sorted(reached)
 
     cs = configs(ck.tier, ck.seed)
-    with ThreadPoolExecutor(max_workers=4) as ex:
+    with ThreadPoolExecutor(max_workers=6) as ex:
         futs = [ex.submit(one, c) for c in cs] + [ex.submit(model_only)]
         for f in futs:
             f.result()
@@ -229,5 +276,5 @@ def replay(ck, path):
     beh = os.path.join(ck.work, "replay.jsonl")
     with open(beh, "w") as f:
         f.write(json.dumps(obj["behaviour"]) + "\n")
-    _judge(ck, sw, "replay", beh, "replay of " + os.path.basename(path))
+    _judge(ck, sw, "replay", beh, "replay of " + os.path.basename(path), mode=obj.get("mode", ""))
     ck.cov["distinct_nontrivial"] = len(ck._keys)
